@@ -699,6 +699,14 @@ impl<'a> NtpPacket<'a> {
         }
     }
 
+    /// NTPv5 packets must carry the identification of the draft version we implement
+    pub(crate) fn has_valid_draft_id(&self) -> bool {
+        match self.header {
+            NtpHeader::V5(_) => self.draft_id() == Some(v5::DRAFT_VERSION),
+            NtpHeader::V3(_) | NtpHeader::V4(_) => true,
+        }
+    }
+
     fn draft_id(&self) -> Option<&'_ str> {
         self.efdata
             .untrusted
